@@ -48,6 +48,31 @@ theorem path_all_complete : ∀ p : Path, p ∈ Path.all := by intro p; cases p 
 theorem zero_crc_guard_mirrored :
     pageLoaderZeroGuard = (pageLoaders.filter (·.2)).map (fun l => (l.1, true)) := by decide
 
+/-- the checksum comparison of the loader executes under exactly one condition, `header.CRC != 0` (the
+    `h.crc != 0` test of the mirror `readPage`, finding F8) — nothing about `f.skip`, `f.desync`, an
+    option or a page type. This is what `Props.C13.verify_independent_of_seek_state` rests on; it fails
+    for the seeded slip `header.CRC != 0 && f.skip == 0`. -/
+theorem crc_guard_is_zero_test_only :
+    crcComparisonGuards = [("FilePages.readPage", ["header.CRC != 0"])] := by decide
+
+/-- the buffer the loader reads into is the one it checksums and the one it returns, and it is
+    assigned once (`page := buffers.get(...)`): the mirror `readPage` returning the compared bytes -/
+theorem loader_returns_the_compared_buffer :
+    loaderBufferFlow = [("FilePages.readPage", "page", "page", "page", 1)] := by decide
+
+/-- the callers hand that very variable to the decode entry points (the only other value it ever holds
+    comes from the encrypted branch, outside this property), and those pass their parameter on to
+    `Column.decode*` without reassigning it: `Props.C13.decode_sees_verified_bytes` on the source -/
+theorem decode_gets_the_verified_buffer :
+    loaderResultFlow =
+      [("FilePages.readDictionary", "FilePages.readPage", "page", ["readDictionaryPage"], ["buffers.get(len(bodyPlain))"]),
+       ("FilePages.readPageInSequence", "FilePages.readPage", "data",
+         ["readDataPageV1", "readDataPageV2", "readDictionaryPage"], ["f.readEncryptedPage()"])] ∧
+    decodeEntryFlow =
+      [("FilePages.readDataPageV1", "page", ["decodeDataPageV1"], 0),
+       ("FilePages.readDataPageV2", "page", ["decodeDataPageV2"], 0),
+       ("FilePages.readDictionaryPage", "page", ["decodeDictionary"], 0)] := by decide
+
 /-- no other function of file.go reads bytes from the file into a buffer: the remaining read sites are
     the bloom filter prefetch, the generic ReadAt wrappers (footer, indexes) and the encrypted-module
     envelope (authenticated by AES-GCM, outside this property) -/
